@@ -34,7 +34,7 @@ const baseModName = "example.com/cm"
 var convRe = regexp.MustCompile(`[A-Za-z0-9_]+__to__[A-Za-z0-9_]+`)
 
 func goEnv() []string {
-	return append(os.Environ(), "GOFLAGS=-mod=mod", "GOPROXY=off", "GOSUMDB=off", "GOTOOLCHAIN=local")
+	return append(os.Environ(), "GOFLAGS=-mod=mod", "GOPROXY=off", "GOSUMDB=off", "GOTOOLCHAIN=local", "CGO_ENABLED=1")
 }
 
 func hx(s string) string {
@@ -61,6 +61,12 @@ var pkgSrc = map[string]map[string]string{
 	},
 	"broken": {
 		"e.go": "package broken\n\nfunc Wrong() uint64 {\n\treturn \"not a number\"\n}\n",
+	},
+	// files selected by the cgo build constraint: the toolchain (cgo enabled) takes with_cgo.go, which is not translatable
+	"cgopkg": {
+		"with_cgo.go":    "//go:build cgo\n\npackage cgopkg\n\nfunc OnlyCgo(x uint64) uint64 {\n\tswitch x {\n\tcase 1:\n\t\treturn 2\n\t}\n\treturn 3\n}\n",
+		"without_cgo.go": "//go:build !cgo\n\npackage cgopkg\n\nfunc OnlyNoCgo(x uint64) uint64 {\n\treturn x\n}\n",
+		"common.go":      "package cgopkg\n\nfunc Common() uint64 {\n\treturn 1\n}\n",
 	},
 	// every file is excluded under the goose tag: the toolchain matches the package and cannot load it
 	"excluded": {
@@ -128,7 +134,7 @@ func main() {
 		ignore := r.Bool()
 		// which packages exist in this module
 		present := []string{"good1"}
-		for _, p := range []string{"sub/good2", "my-pkg", "bad", "conv"} {
+		for _, p := range []string{"sub/good2", "my-pkg", "bad", "conv", "cgopkg"} {
 			if r.Intn(3) != 0 {
 				present = append(present, p)
 			}
@@ -312,6 +318,13 @@ func main() {
 				rewritten = 1
 			}
 			fmt.Fprintf(w, "W %s %s %d\n", hx(k), hx(after[k]), rewritten)
+		}
+		// build constraints other than the goose tag are the environment's: with cgo enabled the package
+		// cgopkg consists of with_cgo.go and common.go
+		for k, v := range after {
+			if strings.HasSuffix(k, "cgopkg.v") && strings.Contains(v, "OnlyNoCgo") {
+				fmt.Fprintln(w, "G BAD the cgo build constraint is not evaluated like the toolchain evaluates it (CGO_ENABLED=1): the translation contains OnlyNoCgo")
+			}
 		}
 		// a written file defines every struct-to-interface conversion it uses
 		for k, v := range after {
